@@ -222,7 +222,7 @@ pub fn failing(rng: &mut Rng, base: &Reply, request_hint: usize, small_caps: boo
         kind,
         schedule_independent: indep,
     };
-    match rng.below(13) {
+    match rng.below(14) {
         0 => {
             let errno = *rng.pick(&[libc::ENOENT, libc::EACCES, libc::ENOEXEC, libc::EAGAIN, libc::ENOMEM, libc::EMFILE]);
             Behaviour { gen: Generator { spawn_errno: Some(errno), label: format!("spawn-errno-{errno}"), ..Default::default() }, kind: "spawn-error", schedule_independent: true }
@@ -342,6 +342,25 @@ pub fn failing(rng: &mut Rng, base: &Reply, request_hint: usize, small_caps: boo
             let s = vec![ScriptOp::ReadExact { n: 1 + rng.usize_below(request_hint.max(2)) }, w(1, &[0, 0]), ScriptOp::Exit { code: 0 }];
             mk(s, "partial-read-then-reply".into(), "exit-without-reading", false)
         }
+        12 => {
+            // closes stdin early (perhaps after reading a little), stays alive and then writes more than a pipe holds
+            let mut s = Vec::new();
+            if rng.chance(1, 2) {
+                s.push(ScriptOp::ReadExact { n: 1 + rng.usize_below(request_hint.max(2)) });
+            }
+            s.push(ScriptOp::Close { fd: 0 });
+            let n = *rng.pick(&[70_000usize, 200_000, 66_000]);
+            match rng.below(3) {
+                0 => s.push(ScriptOp::WriteFill { fd: 1, n, byte: 0 }),
+                1 => s.push(ScriptOp::WriteFill { fd: 2, n, byte: b'\n' }),
+                _ => {
+                    s.extend(chunked(rng, 1, &good));
+                    s.push(ScriptOp::WriteFill { fd: 2, n, byte: b'\n' });
+                }
+            }
+            s.push(ScriptOp::Exit { code: 0 });
+            mk(s, format!("closes-stdin-then-floods-{n}"), "exit-without-reading", false)
+        }
         11 => {
             // large stderr AND large stdout, interleaved: both pipes fill before the compiler collects
             let mut s = vec![read_op(rng)];
@@ -371,6 +390,12 @@ fn written(script: &[ScriptOp]) -> ((usize, usize), (usize, usize)) {
     for op in script {
         let (fd, n) = match op {
             ScriptOp::ReadRequest | ScriptOp::ReadToEof => {
+                full_read_seen = true;
+                continue;
+            }
+            // a generator that has closed its stdin can no longer stall the compiler's write (it fails with EPIPE at
+            // once), so what it writes afterwards is not bounded by the pipe protocol
+            ScriptOp::Close { fd: 0 } => {
                 full_read_seen = true;
                 continue;
             }
